@@ -403,6 +403,11 @@ def rule_render_wiring(chk, fb):
         fl = Flow(fb, b)
         cfg = CFG(b)
         C = colcalls[0]
+        # where the letters enter the output: the append whose argument derives from the column call (push style),
+        # else the call itself (format! style: arguments are evaluated in output order)
+        appends = [bi for bi, t in fl.calls(lambda t: t.get("fn", "").split("::")[-1] in ("push_str", "push", "insert_str", "extend", "write_str")) if len(t["args"]) > 1 and any(a[0] == "call" and a[2] == colcalls[0] for a in fl.atoms(t["args"][1]))]
+        if appends:
+            C = appends[0]
         chk.touch(d)
         sites = []
         for bi, bl in enumerate(b["blocks"]):
